@@ -20,7 +20,10 @@ TES = [None, None, "chunked", "identity", "identity;q=0", "chunked;q=0", "gzip",
        "chunked;q=0.3, identity;q=0.7", "trailers", "chunked;q=1e0", "identity;q=abc"]
 PIECES = ["-", "-", "1", "7,3", "1024", "8192", "8191,2", "10000", "8193"]
 HDRS = [("X-A", "1"), ("Content-Type", "text/html"), ("Cache-Control", "no-cache, private"), ("X-Long", "v" * 1100),
-        ("Content-Type", "a/b"), ("Set-Cookie", "a=b; Path=/"), ("X-Empty", "")]
+        ("Content-Type", "a/b"), ("Set-Cookie", "a=b; Path=/"), ("X-Empty", ""),
+        # names the library manages itself, in several letter cases: they must never reach the wire
+        ("Transfer-Encoding", "chunked"), ("transfer-encoding", "chunked"), ("TRANSFER-ENCODING", "gzip"),
+        ("connection", "close"), ("Connection", "keep-alive"), ("trailer", "X-T"), ("upgrade", "h2c")]
 
 
 def gen(tier, rng):
